@@ -157,7 +157,11 @@ struct SessionsModel : Monitor {
 		bool expired_owner = true, any = false;
 		for (auto &s : slot) if (s.second.issued && s.second.assigned_ip_h == dst) { any = true; if (s.second.logged_in && w->S.now - s.second.t_hi < 62ull * 1000000) expired_owner = false; }
 		srv_offered[p] = {w->S.now, any ? expired_owner : true};
+		// ... and a packet for an address whose every owner has been silent for more than a minute must be taken for nobody
+		dl.armed = any && expired_owner;
+		if (dl.armed) { dl.z = z_compress(p); dl.dst = dst; }
 	}
+	struct DeadLookup { bool armed = false; Bytes z; uint32_t dst = 0; } dl;
 
 	void on_send(const Dgram &d, Sock *s) override
 	{
@@ -320,6 +324,17 @@ struct SessionsModel : Monitor {
 	void on_block(Task &t) override
 	{
 		if (&t != w->srv) return;
+		if (dl.armed) {
+			dl.armed = false;
+			w->probes["c18.dead_lookup_checked"]++;
+			for (int u = 0, n = peek_nusers(); u < n; u++) {
+				std::vector<Bytes> held; peek_outpackets(u, held);
+				for (auto &h : held) if (h == dl.z) {
+					char b[220]; snprintf(b, sizeof b, "a packet for %s, whose only owner (session %d) has been silent for more than 60 s, was queued for that session", Addr::v4(dl.dst, 0).str().c_str(), u);
+					w->S.violate("C18", "lookup.dead_owner_found", b);
+				}
+			}
+		}
 		if (lk.armed) {
 			lk.armed = false;
 			auto it = slot.find(lk.uid);
